@@ -58,12 +58,15 @@ struct Sys<A: Alg> {
     all_inits: bool,
     /// elements carry stale pending modifiers (read back from another tree)
     dirty: bool,
+    /// range modifications not offered because they would take a covered element out of the domain
+    /// (counted once per state they were withheld in)
+    skipped: std::sync::atomic::AtomicU64,
     _p: std::marker::PhantomData<A>,
 }
 
 impl<A: Alg> Sys<A> {
     fn new(n: usize, mode: Mode, all_inits: bool) -> Self {
-        Sys { n, mode, all_inits, dirty: false, _p: std::marker::PhantomData }
+        Sys { n, mode, all_inits, dirty: false, skipped: std::sync::atomic::AtomicU64::new(0), _p: std::marker::PhantomData }
     }
 
     fn check_all_singles(&self, s: &St<A>) -> Result<(), String> {
@@ -186,6 +189,13 @@ impl<A: Alg> System for Sys<A> {
         for l in 0..n {
             for r in l..n {
                 for m in 0..nm {
+                    if A::HAS_DOMAIN {
+                        let md = A::modifier(m as usize, l as usize);
+                        if !s.model[l as usize..=r as usize].iter().all(|e| A::mod_ok(e, &md)) {
+                            self.skipped.fetch_add(1, std::sync::atomic::Ordering::Relaxed);
+                            continue;
+                        }
+                    }
                     v.push(Act::Modify(l, r, m));
                 }
             }
@@ -359,6 +369,10 @@ struct Part {
     depth: Option<usize>,
     res: ExploreResult,
     wall: f64,
+    /// what `M::default()` is for the part's algebra, and what the algebra declares it may be
+    defmod: DefaultMod,
+    defmod_may_be_identity: bool,
+    skipped_out_of_domain: u64,
 }
 
 fn run_part<A: Alg>(label: &str, n: usize, mode: Mode, depth: Option<usize>, all_inits: bool, wall: f64) -> Part {
@@ -372,7 +386,7 @@ fn run_part<A: Alg>(label: &str, n: usize, mode: Mode, depth: Option<usize>, all
     let cfg = ExploreCfg { max_depth: depth, max_states: if wall > 100.0 { 8_000_000 } else { 30_000_000 }, wall_cap_s: wall };
     let t0 = std::time::Instant::now();
     let res = explore(&sys, &cfg);
-    Part { name: label.to_string(), n, depth, res, wall: t0.elapsed().as_secs_f64() }
+    Part { name: label.to_string(), n, depth, res, wall: t0.elapsed().as_secs_f64(), defmod: default_mod::<A>(), defmod_may_be_identity: A::DEFAULT_MOD_IS_IDENTITY, skipped_out_of_domain: sys.skipped.load(std::sync::atomic::Ordering::Relaxed) }
 }
 
 fn replay_part(label: &str, n: usize, mode: Mode, hist: &[Value]) -> Result<(), String> {
@@ -398,6 +412,7 @@ fn replay_part(label: &str, n: usize, mode: Mode, hist: &[Value]) -> Result<(), 
             "MaxAdd<i64>" => god!(AlgMaxAdd),
             "SumAdd<i64>" => god!(AlgSumAdd),
             "Flip" => god!(AlgFlip),
+            "FlipZ" => god!(AlgFlipZ),
             "AP" => god!(AlgAp),
             "Comb<MinAdd,MaxAdd>" => god!(Comb<AlgMinAdd, AlgMaxAdd>),
             "Comb<Comb<MinAdd,MaxAdd>,SumAdd>" => god!(Comb<Comb<AlgMinAdd, AlgMaxAdd>, AlgSumAdd>),
@@ -422,11 +437,16 @@ fn replay_part(label: &str, n: usize, mode: Mode, hist: &[Value]) -> Result<(), 
         "Comb<Comb<MinAdd,MaxAdd>,SumAdd>" => go!(Comb<Comb<AlgMinAdd, AlgMaxAdd>, AlgSumAdd>),
         "Comb<Sum<Z3>,Comb<Min,Max>>" => go!(Comb<AlgSumZ3, Comb<AlgMinU8, AlgMaxU8>>),
         "Flip" => go!(AlgFlip),
+        "FlipZ" => go!(AlgFlipZ),
         "AP" => go!(AlgAp),
         "Comb<W,W>" => go!(Comb<AlgW, AlgW>),
         "Comb<Flip,Comb<Flip,Flip>>" => go!(Comb<AlgFlip, Comb<AlgFlip, AlgFlip>>),
         "MinAdd@MAX" => go!(AlgMinAddExt),
         "MaxAdd@MIN" => go!(AlgMaxAddExt),
+        "MinAdd@MIN" => go!(AlgMinAddLow),
+        "MaxAdd@MAX" => go!(AlgMaxAddHigh),
+        "MinAdd+=MAX" => go!(AlgMinAddStep),
+        "MaxAdd+=MIN" => go!(AlgMaxAddStep),
         "Min<Rec>" => go!(AlgMinRec),
         "Max<Rec>" => go!(AlgMaxRec),
         _ => with_pair(label, ReplayPair { n, mode, hist }).unwrap_or_else(|| {
@@ -745,7 +765,7 @@ fn main() {
     for n in 1..=(if quick { 3 } else { 4 }) {
         parts.push(run_part::<AlgSumAddZ4>("SumAdd<Z4>", n, mode, None, true, wall));
     }
-    let bi: &[(usize, usize)] = if quick { &[(1, 4), (2, 4), (3, 3), (4, 2), (5, 1)] } else { &[(1, 5), (2, 5), (3, 4), (4, 3), (5, 2), (6, 2), (7, 2)] };
+    let bi: &[(usize, usize)] = if quick { &[(1, 4), (2, 4), (3, 3), (4, 2), (5, 1)] } else { &[(1, 5), (2, 5), (3, 4), (4, 3), (5, 2), (6, 2)] };
     for &(n, bd) in bi {
         parts.push(run_part::<AlgMinAdd>("MinAdd<i64>", n, mode, Some(bd), true, wall));
         parts.push(run_part::<AlgMaxAdd>("MaxAdd<i64>", n, mode, Some(bd), true, wall));
@@ -757,10 +777,11 @@ fn main() {
         parts.push(run_part::<Comb<AlgSumZ3, Comb<AlgMinU8, AlgMaxU8>>>("Comb<Sum<Z3>,Comb<Min,Max>>", n, mode, None, true, wall));
     }
 
-    // Part C2: a lazy item with a data-less modifier (M = ()), a Combinator of two NON-commutative parts,
-    // elements at the extreme values of the type, records compared by key only
+    // Part C2: a lazy item with a data-less modifier (M = (), and M = a zero-sized struct), a Combinator of two
+    // NON-commutative parts, elements at the extreme values of the type, records compared by key only
     for n in 1..=(if quick { 5 } else { 6 }) {
         parts.push(run_part::<AlgFlip>("Flip", n, mode, None, true, wall));
+        parts.push(run_part::<AlgFlipZ>("FlipZ", n, mode, None, true, wall));
     }
     for n in 1..=(if quick { 4 } else { 5 }) {
         parts.push(run_part::<Comb<AlgW, AlgW>>("Comb<W,W>", n, mode, None, true, wall));
@@ -777,6 +798,13 @@ fn main() {
     for &(n, d) in ext {
         parts.push(run_part::<AlgMinAddExt>("MinAdd@MAX", n, mode, Some(d), true, wall));
         parts.push(run_part::<AlgMaxAddExt>("MaxAdd@MIN", n, mode, Some(d), true, wall));
+        // the opposite limits and limit-sized modifiers: up to n = 4 in both tiers (the thorough tier is long as it is)
+        if n <= 4 {
+            parts.push(run_part::<AlgMinAddLow>("MinAdd@MIN", n, mode, Some(d), true, wall));
+            parts.push(run_part::<AlgMaxAddHigh>("MaxAdd@MAX", n, mode, Some(d), true, wall));
+            parts.push(run_part::<AlgMinAddStep>("MinAdd+=MAX", n, mode, Some(d), true, wall));
+            parts.push(run_part::<AlgMaxAddStep>("MaxAdd+=MIN", n, mode, Some(d), true, wall));
+        }
         parts.push(run_part::<AlgMinRec>("Min<Rec>", n, mode, Some(d), true, wall));
         parts.push(run_part::<AlgMaxRec>("Max<Rec>", n, mode, Some(d), true, wall));
     }
@@ -789,6 +817,7 @@ fn main() {
         parts.push(run_part::<AlgA3>("A3+stale-tags", n, mode, Some(d), true, wall));
         parts.push(run_part::<AlgFr>("Fr+stale-tags", n, mode, Some(d), true, wall));
         parts.push(run_part::<AlgFlip>("Flip+stale-tags", n, mode, Some(d), true, wall));
+        parts.push(run_part::<AlgFlipZ>("FlipZ+stale-tags", n, mode, Some(d), true, wall));
         parts.push(run_part::<AlgAp>("AP+stale-tags", n, mode, Some(d), true, wall));
         parts.push(run_part::<AlgSumAddZ4>("SumAdd<Z4>+stale-tags", n, mode, Some(d), true, wall));
         parts.push(run_part::<AlgMinAdd>("MinAdd<i64>+stale-tags", n, mode, Some(d), true, wall));
@@ -807,6 +836,36 @@ fn main() {
     // and the neighbours of powers of two up to 1025/4097), all three constructors, boundary-targeted
     // modifications, then ALL (l, r) queries (n <= 40) or all pairs of boundary positions
     let sweep = size_sweep(mode, quick);
+
+    // What `M::default()` is in every explored algebra (a fact about the harness, not about /repo): it must be
+    // a modifier the exploration applies, and the identity only where the modifiers are plain additive
+    // numbers or modifying is a no-op.
+    let mut default_mods: Vec<Value> = vec![];
+    let mut seen: Vec<&str> = vec![];
+    for p in &parts {
+        let name = p.name.strip_suffix("+stale-tags").unwrap_or(&p.name);
+        if seen.contains(&name) {
+            continue;
+        }
+        seen.push(name);
+        let d = &p.defmod;
+        if !d.in_alphabet || d.acts == p.defmod_may_be_identity {
+            run.machinery_failure(&format!("algebra {name}: M::default() = {} must be in the explored alphabet (is: {}) and {} (changes an element: {})", d.rendering, d.in_alphabet, if p.defmod_may_be_identity { "the identity" } else { "NOT the identity" }, d.acts));
+        }
+        default_mods.push(json!({"algebra": name, "default_modifier": d.rendering, "in_alphabet": d.in_alphabet, "is_identity": !d.acts, "modifier_zero_sized": d.zero_sized}));
+    }
+    if !parts.iter().any(|p| p.name == "FlipZ" && p.defmod.zero_sized && p.defmod.acts) || !parts.iter().any(|p| p.name == "Flip" && p.defmod.zero_sized && p.defmod.acts) {
+        run.machinery_failure("no lazy algebra with a zero-sized modifier type");
+    }
+    // the domain restriction bites exactly where it is meant to
+    for p in &parts {
+        let step = p.name == "MinAdd+=MAX" || p.name == "MaxAdd+=MIN";
+        // (a part that stopped at a violation may not have come to a state where it would have skipped)
+        if (!step && p.skipped_out_of_domain > 0) || (step && p.skipped_out_of_domain == 0 && p.res.violation.is_none()) {
+            run.machinery_failure(&format!("part {} n={}: {} modifications withheld as out of domain", p.name, p.n, p.skipped_out_of_domain));
+        }
+    }
+    run.cov("default_modifiers", json!({"algebras": default_mods, "non_identity_defaults": parts.iter().filter(|p| p.defmod.acts).count(), "note": "M::default() of each explored algebra: always a letter of the explored alphabet; the identity only for plain additive numbers and for the no-op modifier () of the non-lazy built-ins"}));
 
     let mut states = 0u64;
     let mut transitions = 0u64;
@@ -831,7 +890,7 @@ fn main() {
         if p.res.cap_hit.as_deref().map_or(false, |c| !c.starts_with("depth bound")) {
             all_closed = false;
         }
-        table.push(json!({"algebra": p.name, "n": p.n, "depth_bound": p.depth, "wall_s": (p.wall * 100.0).round() / 100.0, "result": p.res.to_json()}));
+        table.push(json!({"algebra": p.name, "n": p.n, "depth_bound": p.depth, "wall_s": (p.wall * 100.0).round() / 100.0, "skipped_out_of_domain": p.skipped_out_of_domain, "result": p.res.to_json()}));
         // one report per algebra: the smallest n that fails (parts are ordered by n within an algebra)
         if let Some(f) = p.res.violation.as_ref().filter(|_| !reported.contains(&p.name)) {
             reported.push(p.name.clone());
@@ -855,16 +914,18 @@ fn main() {
         }
     }
     run.cov("states", states);
+    run.cov("skipped_out_of_domain", parts.iter().map(|p| p.skipped_out_of_domain).sum::<u64>());
     run.cov("transitions", transitions);
     run.cov("traces_validated_against_impl", transitions);
     run.cov("judged_transitions", judged);
     run.cov("distinct_outcomes", outcomes);
     run.cov("exhaustive", all_closed && !run.has_violations());
     run.cov("parts", Value::Array(table));
-    run.cov("rule", "per (algebra, n): BFS over the real Segtree's node array (hook verif_nodes) + plain-array model; every set/modify/ask (C02: also every lower_bound/lower_bound_rev for every predicate of the family at every position; C01: debug) applied in every reached state; parts without depth_bound run to closure (histories of any length), parts with depth_bound cover all histories up to that depth; all three constructor families are initial states of the closing parts. Parts named Pair<X,Y> are Combinator<X,Y> of one built-in item (MinAdd, MaxAdd, SumAdd, and the non-lazy Min, Max, Sum) and one INDEPENDENT non-commutative harness item (W, A3, the free algebra Fr, Flip), in both positions and one nesting level out; the harness part receives the built-in's modifiers through a fixed translation (i64: +1 -> not / x+1 / letter 1, -1 -> const0 / :=0 / letter 2, +2 -> identity / x+2 / letter 3, 0 -> const1 / :=1 / letter 4; Z4: 1,2,3 -> not,const0,const1; (): x+1 on Z3), so modifiers that cancel in the built-in part (+1 then -1, a 0) stay pending in the other part and vice versa; the reference is the pair of the two plain-array models; from_iter of all vectors over two element letters are the initial states");
+    run.cov("rule", "per (algebra, n): BFS over the real Segtree's node array (hook verif_nodes) + plain-array model; every set/modify/ask (C02: also every lower_bound/lower_bound_rev for every predicate of the family at every position; C01: debug) applied in every reached state; parts without depth_bound run to closure (histories of any length), parts with depth_bound cover all histories up to that depth; all three constructor families are initial states of the closing parts. Parts named Pair<X,Y> are Combinator<X,Y> of one built-in item (MinAdd, MaxAdd, SumAdd, and the non-lazy Min, Max, Sum) and one INDEPENDENT non-commutative harness item (W, A3, the free algebra Fr, Flip), in both positions and one nesting level out; the harness part receives the built-in's modifiers through a fixed translation (i64: +1 -> not / x+1 / letter 1, -1 -> const0 / :=0 / letter 2, +2 -> identity / x+2 / letter 3, 0 -> const1 / :=1 / letter 4; Z4: 1,2,3,0 -> not,const0,identity,const1; (): x+1 on Z3), so modifiers that cancel in the built-in part (+1 then -1, a 0) stay pending in the other part and vice versa; the reference is the pair of the two plain-array models; from_iter of all vectors over two element letters are the initial states. Trait surface: every modifier type is Copy+Debug+Default+Eq+Ord+Hash and every harness item / value type implements the std traits its fields allow, so the engine keeps compiling when the crate tightens a bound; these impls are adversarial, not convenient: T::default() is the merge identity and == is exact, but M::default() is an ordinary NON-identity letter of the explored alphabet wherever the modifiers are not plain additive numbers (W: const0, A3: :=0, Fr: letter 0, AP: the progression (2,3) from index 0, Flip with M = () and FlipZ with M = a zero-sized struct: the complement; Pair/Comb: the shared modifier's default, translated to a non-identity of the harness part), see default_modifiers; the additive alphabets (i64, Z4) contain 0 = default next to +1 and -1. Value sentinels: the i64 elements 0, 1, -2 pass through 0, 1, -1 under the modifiers; MinAdd@MAX / MinAdd@MIN / MaxAdd@MIN / MaxAdd@MAX hold elements equal to both limits of i64 (one of them is the item's Default) with modifiers that move away from the limit; MinAdd+=MAX / MaxAdd+=MIN apply the modifier i64::MAX / i64::MIN itself to elements on the far side of 0; Min<u8> / Max<u8> hold 0 and 255 next to 1, 2, 3; the search thresholds of the i64 items lie around 0 and around every element letter");
     run.cov("pair_family", json!({"algebras": PAIRS.iter().map(|p| p.0).collect::<Vec<_>>(), "wall_s": (pairs_wall * 100.0).round() / 100.0, "note": "explored side by side (rayon), so the wall_s of the parts overlap; wall_s here is the whole family"}));
     run.assume("harness item algebras W, A3, Fr satisfy the monoid-action laws (merge associative with Default as identity, modify distributes over merge, push = apply pending modifiers to both children in order); a node covering one element never records a pending tag (it has no children, so no tree can read it)");
     run.assume("a harness item driven through a translation of another modifier alphabet (Pair parts) is lawful for every translation: the tree never composes modifiers, it only hands each one to the items, and the wrapped item composes and pushes the translated modifiers as before");
+    run.assume("integer overflow is outside the domain: a range modification that would take a covered element out of i64 is not offered in that state (skipped_out_of_domain counts them; only MinAdd+=MAX / MaxAdd+=MIN, whose modifier alphabets contain a limit of the type, ever skip), and the alphabets are chosen so that no pending sum of modifiers leaves the type either; SumAdd is not run at the limits of i64 (the sum of two elements would overflow)");
     run.assume("state identity = encoded node array (all slots, including those the tree never addresses) + plain-array model");
     // non-vacuity
     if !run.has_violations() {
